@@ -72,11 +72,27 @@ theorem addSegment_fit (sp : SegPkt) (r : Bytes) (ver mt seq : Nat) (hg : GoodEn
 
 /-! ### the loop -/
 
+/-- **`curSize -= packetSize` never wraps.**  Both are `std::size_t` (the remaining size is no longer narrowed to `int`).
+    For a message `r` (the `curSize` remaining bytes) that `Packet::isValidPacket` accepted, the stride
+    `packet->getPayloadLength() + sizeof(MessageHeader)` of the packet constructed from it is 16 + the DECLARED length (the
+    constructor copies exactly the declared bytes), which the validator guarantees to be at most `curSize`: the unsigned
+    subtraction is the true difference, for every `curSize` below 2^64 — no 2^31 bound -/
+theorem curSize_sub_no_wrap (r : Bytes) (mt ver dev stream : Nat) (hv : msgValid r = true) (h64 : r.length < 2 ^ 64) :
+    uadd 64 (pktPayloadLength
+      ({ mt := mt, msg := r.take (16 + beAt r 14 2), version := ver, deviceId := dev, streamId := stream } : PktOut)) 16 =
+      beAt r 14 2 + 16 ∧
+    beAt r 14 2 + 16 ≤ r.length ∧
+    usub 64 r.length (beAt r 14 2 + 16) = r.length - (beAt r 14 2 + 16) := by
+  have hb16 := C02.msgValid_bound r hv
+  have hlen16 : beAt r 14 2 < 65536 := C03.beAt_two_lt r 14
+  refine ⟨?_, by omega, usub_eq _ _ (by omega) h64⟩
+  rw [pktLen_take, uadd_eq _ _ (by omega)]
+
 theorem loop_src {F : Type} (b post M : Bytes) (adata asize dataPtr hdr dev stream ver mt seq : Nat)
     (hV : CmpHeader_getVersion M hdr = some ver) (hMT : CmpHeader_getMessageType M hdr = some mt)
     (hSeq : CmpHeader_getSequenceCounter M hdr = some seq) (hver : ver ≠ 0) (hMlen : M.length < 2 ^ 63) :
     ∀ (fuel fuelLL : Nat) (t : Table) (pos : Nat) (outs : List PktOut) (r pre' : Bytes) (pkt : PktOut),
-      M = pre' ++ r ++ post → b.drop pos = r → r.length < 2 ^ 31 → r.length / 16 + 1 ≤ fuel →
+      M = pre' ++ r ++ post → b.drop pos = r → r.length / 16 + 1 ≤ fuel →
       r.length / 16 + 1 ≤ fuelLL → Ok t → Reg t →
       ∃ res, ∃ outs' : List PktOut,
         Decoder_decode_loop1 fuel ⟨tmap t⟩ M adata asize dataPtr (outs.map (Sum.inl : PktOut → PktOut ⊕ F)) hdr dev stream
@@ -86,9 +102,9 @@ theorem loop_src {F : Type} (b post M : Bytes) (adata asize dataPtr hdr dev stre
         outs'.map toPkt = (decodeLoopLL b dev stream ver mt seq fuelLL t pos r.length (outs.map toPkt)).2 := by
   intro fuel
   induction fuel with
-  | zero => intro fuelLL t pos outs r pre' pkt _ _ _ hf; omega
+  | zero => intro fuelLL t pos outs r pre' pkt _ _ hf; omega
   | succ fuel ih =>
-    intro fuelLL t pos outs r pre' pkt hM hr hr31 hfuel hfuelLL hok hreg
+    intro fuelLL t pos outs r pre' pkt hM hr hfuel hfuelLL hok hreg
     cases fuelLL with
     | zero => omega
     | succ fuelLL =>
@@ -96,12 +112,14 @@ theorem loop_src {F : Type} (b post M : Bytes) (adata asize dataPtr hdr dev stre
       by_cases hnil : r.length = 0
       · -- curSize = 0: the loop ends
         rw [hnil, loop_zero_cur]
-        simp only [slt_zero 0 (by decide), Nat.lt_irrefl, decide_false, Bool.false_eq_true, if_false, pure]
+        simp only [gt_iff_lt, Nat.lt_irrefl, decide_false, Bool.false_eq_true, if_false, pure]
         exact ⟨_, outs, rfl, rfl, rfl, rfl⟩
       · have hpos : 0 < r.length := Nat.pos_of_ne_zero hnil
         have hslice : slice b pos r.length = r := by
           unfold slice; rw [hr, List.take_length]
         have hM64 : (pre' ++ r ++ post).length < 2 ^ 64 := by rw [← hM]; omega
+        have hr64 : r.length < 2 ^ 64 := by
+          have := hM64; simp only [List.length_append] at this; omega
         have hvp : Packet_isValidPacket M pre'.length r.length = some (msgValid r) := by
           rw [hM]; exact isValidPacket_src pre' r post hM64
         rw [loop_succ _ _ _ _ _ _ _ _ _ _ _ hnil, hslice]
@@ -131,14 +149,15 @@ theorem loop_src {F : Type} (b post M : Bytes) (adata asize dataPtr hdr dev stre
               (outs ++ [{ mt := mt, msg := r.take (16 + beAt r 14 2), version := ver, deviceId := dev, streamId := stream }])
               (r.drop (16 + beAt r 14 2)) (pre' ++ r.take (16 + beAt r 14 2))
               { mt := mt, msg := r.take (16 + beAt r 14 2), version := ver, deviceId := dev, streamId := stream }
-              hM2 hdrop (by rw [hl2]; omega) (by rw [hl2]; omega) (by rw [hl2]; omega) (ok_erase t _ hok)
+              hM2 hdrop (by rw [hl2]; omega) (by rw [hl2]; omega) (ok_erase t _ hok)
               (reg_erase t _ hreg)
             rw [hl1, hl2] at hih
             simp only [List.map_append, List.map_singleton, toPkt_unseg] at hih
+            obtain ⟨hstride, _, hsub⟩ := curSize_sub_no_wrap r mt ver dev stream hv hr64
             rw [if_pos h0, ofMsg_payloadLength _ _ _ r hv]
-            simp (disch := omega) only [slt_zero _ hr31, hpos, decide_true, if_true, sext_small _ hr31, hvp, hv, bind, pure,
+            simp only [gt_iff_lt, hpos, decide_true, if_true, hvp, hv, bind, pure,
               some_bind, Bool.not_true, Bool.false_eq_true, if_false, hsegd, h0, bne_self_eq_false, Bool.not_false,
-              map_erase, hMT, hmk, hV, pktLen_take, uadd_eq, ssub_small]
+              map_erase, hMT, hmk, hV, hstride, hsub]
             exact hih
           · have hseg1 : ((byteAt r 12 &&& 0x0C) != 0) = true := by simpa using h0
             rw [if_neg h0]
@@ -148,7 +167,7 @@ theorem loop_src {F : Type} (b post M : Bytes) (adata asize dataPtr hdr dev stre
                   pre'.length r.length ver mt seq = some (spSt (SegPkt.first r ver mt seq), ()) := by
                 rw [hM]; exact ctor_src _ pre' r post ver mt seq h16 hM64
               rw [if_pos h4]
-              simp (disch := omega) only [slt_zero _ hr31, hpos, decide_true, if_true, sext_small _ hr31, hvp, hv, bind,
+              simp (disch := omega) only [gt_iff_lt, hpos, decide_true, if_true, hvp, hv, bind,
                 pure, some_bind, Bool.not_true, Bool.false_eq_true, if_false, hsegd, hseg1, hfirst, h4, beq_self_eq_true,
                 hV, hMT, hSeq, hctor, map_index, map_put, index_set]
               exact ⟨_, outs, rfl, rfl, rfl, rfl⟩
@@ -160,7 +179,7 @@ theorem loop_src {F : Type} (b post M : Bytes) (adata asize dataPtr hdr dev stre
                 have hadd : Decoder_SegmentedPacket_addSegment_obj (spSt {}) M pre'.length r.length ver mt seq =
                     some (spSt {}, false) := addSegment_default_src M _ _ ver mt seq hver
                 rw [segBlock_absent _ r ver mt seq t _ hfind hver]
-                simp (disch := omega) only [slt_zero _ hr31, hpos, decide_true, if_true, sext_small _ hr31, hvp, hv, bind,
+                simp (disch := omega) only [gt_iff_lt, hpos, decide_true, if_true, hvp, hv, bind,
                   pure, some_bind, Bool.not_true, Bool.false_eq_true, if_false, hsegd, hseg1, hfirst, hfirst0,
                   hV, hMT, hSeq, map_index, index_none t _ hfind, hadd, map_put, Bool.not_false, map_erase, erase_set]
                 exact ⟨_, outs, rfl, rfl, rfl, rfl⟩
@@ -176,7 +195,7 @@ theorem loop_src {F : Type} (b post M : Bytes) (adata asize dataPtr hdr dev stre
                 obtain ⟨sp', okb⟩ := X
                 cases okb with
                 | false =>
-                  simp (disch := omega) only [slt_zero _ hr31, hpos, decide_true, if_true, sext_small _ hr31, hvp, hv,
+                  simp (disch := omega) only [gt_iff_lt, hpos, decide_true, if_true, hvp, hv,
                     bind, pure, some_bind, Bool.not_true, Bool.false_eq_true, if_false, hsegd, hseg1, hfirst, hfirst0,
                     hV, hMT, hSeq, map_index, index_some t _ sp hfind, hadd, map_put, Bool.not_false, map_erase,
                     erase_set]
@@ -187,7 +206,7 @@ theorem loop_src {F : Type} (b post M : Bytes) (adata asize dataPtr hdr dev stre
                     index_some _ _ _ (find_set_same t _ sp')
                   by_cases h12 : sp'.segType = 12
                   · have hasm : (sp'.segType == 12) = true := by simpa using h12
-                    simp (disch := omega) only [slt_zero _ hr31, hpos, decide_true, if_true, sext_small _ hr31, hvp, hv,
+                    simp (disch := omega) only [gt_iff_lt, hpos, decide_true, if_true, hvp, hv,
                       bind, pure, some_bind, Bool.not_true, Bool.false_eq_true, if_false, hsegd, hseg1, hfirst,
                       hfirst0, hV, hMT, hSeq, map_index, index_some t _ sp hfind, hadd, map_put, Bool.not_false,
                       map_erase, erase_set, hidx, isAssembled_src, hasm, h12, tset_set,
@@ -197,7 +216,7 @@ theorem loop_src {F : Type} (b post M : Bytes) (adata asize dataPtr hdr dev stre
                     · simp only [List.map_append, List.map_singleton]
                     · simp only [List.map_append, List.map_singleton, toPkt_assembled]
                   · have hasm : (sp'.segType == 12) = false := by simpa using h12
-                    simp (disch := omega) only [slt_zero _ hr31, hpos, decide_true, if_true, sext_small _ hr31, hvp, hv,
+                    simp (disch := omega) only [gt_iff_lt, hpos, decide_true, if_true, hvp, hv,
                       bind, pure, some_bind, Bool.not_true, Bool.false_eq_true, if_false, hsegd, hseg1, hfirst,
                       hfirst0, hV, hMT, hSeq, map_index, index_some t _ sp hfind, hadd, map_put, Bool.not_false,
                       map_erase, erase_set, hidx, isAssembled_src, hasm, h12, tset_set, Bool.true_eq_false]
@@ -205,7 +224,7 @@ theorem loop_src {F : Type} (b post M : Bytes) (adata asize dataPtr hdr dev stre
         · have hv' : msgValid r = false := by simpa using hv
           have hc : (!msgValid r) = true := by rw [hv']; rfl
           rw [if_pos hc]
-          simp only [slt_zero _ hr31, hpos, decide_true, if_true, sext_small _ hr31, hvp, hv', bind, pure, some_bind,
+          simp only [gt_iff_lt, hpos, decide_true, if_true, hvp, hv', bind, pure, some_bind,
             Bool.not_false, map_erase]
           exact ⟨_, outs, rfl, rfl, rfl, rfl⟩
 
@@ -213,7 +232,7 @@ theorem loop_src {F : Type} (b post M : Bytes) (adata asize dataPtr hdr dev stre
 
 theorem decode_frame_src {F : Type} (t : Table) (pre b post : Bytes) (fuel : Nat) (ext : Bytes → Nat → Nat → List F)
     (hok : Ok t) (hreg : Reg t) (hpre : 0 < pre.length) (h8 : 8 ≤ b.length) (h0 : byteAt b 0 ≠ 0)
-    (hlen : b.length < 2 ^ 31) (hmem : (pre ++ b ++ post).length < 2 ^ 63) (hf : b.length ≤ fuel) :
+    (hmem : (pre ++ b ++ post).length < 2 ^ 63) (hf : b.length ≤ fuel) :
     ∃ outs : List PktOut, Decoder_decode_obj fuel ⟨tmap t⟩ (pre ++ b ++ post) pre.length b.length ext =
         some (⟨tmap (decodeLL t (some b)).1⟩, outs.map Sum.inl) ∧
       outs.map toPkt = (decodeLL t (some b)).2 := by
@@ -224,8 +243,9 @@ theorem decode_frame_src {F : Type} (t : Table) (pre b post : Bytes) (fuel : Nat
   have hl2 : (b.drop 8).length = b.length - 8 := List.length_drop
   have hpre0 : (pre.length == 0) = false := by simpa using Nat.ne_of_gt hpre
   have hb0 : (byteAt b 0 == 0) = false := by simpa using h0
-  have hcur : usub 64 b.length 8 % 4294967296 = b.length - 8 := by
-    rw [usub_eq _ _ h8 (by omega)]; exact Nat.mod_eq_of_lt (by omega)
+  have hb63 : b.length < 2 ^ 63 := by
+    have := hmem; simp only [List.length_append] at this; omega
+  have hcur : usub 64 b.length 8 = b.length - 8 := usub_eq _ _ h8 (by omega)
   have hrd : Src.rd (pre ++ b ++ post) pre.length 1 = some (byteAt b 0) := by
     rw [rd_mid0 pre b post 1 (by omega), leAt_one]
   -- the table the loop starts with
@@ -233,7 +253,7 @@ theorem decode_frame_src {F : Type} (t : Table) (pre b post : Bytes) (fuel : Nat
     loop_src (F := F) b post (pre ++ b ++ post) pre.length b.length pre.length pre.length (beAt b 2 2) (byteAt b 5)
       (byteAt b 0) (byteAt b 4) (beAt b 6 2) (getVersion_mid pre b post h8) (getMessageType_mid pre b post h8)
       (getSequenceCounter_mid pre b post h8) h0 hmem fuel ((b.length - 8) / 16 + 2) t' 8 [] (b.drop 8)
-      (pre ++ b.take 8) default hM rfl (by rw [hl2]; omega) (by rw [hl2]; omega) (by rw [hl2]; omega) hok' hreg'
+      (pre ++ b.take 8) default hM rfl (by rw [hl2]; omega) (by rw [hl2]; omega) hok' hreg'
   unfold Decoder_decode_obj decodeLL
   have hlt8 : ¬ b.length < 8 := by omega
   simp only [hpre0, Bool.false_eq_true, if_false, hlt8, decide_false, bind, pure, hrd, some_bind, hb0,
